@@ -15,8 +15,16 @@ theorem utf8Valid_nil : utf8Valid [] = true := by decide
 
 /-! ### `read_event` inside an element (depth ≥ 1): character data passes, comments and PIs are skipped -/
 
-theorem deEventsAt_text_succ (d : Nat) (raw : Bytes) (t : List QEv) :
-    deEventsAt (d + 1) (.text raw :: t) = .text raw :: deEventsAt (d + 1) t := by simp [deEventsAt]
+/-- the model's `]]>` test on a text event is the specification's (`containsSub`) -/
+theorem hasCdataEnd_eq : ∀ (raw : Bytes), hasCdataEnd raw = containsSub [93, 93, 62] raw
+  | [] => by simp [hasCdataEnd, containsSub]
+  | b :: bs => by simp [hasCdataEnd, containsSub, startsWith, hasCdataEnd_eq bs]
+
+theorem hasCdataEnd_of_not {raw : Bytes} (h : ¬ containsSub [93, 93, 62] raw = true) : hasCdataEnd raw = false := by
+  rw [hasCdataEnd_eq]; simpa using h
+
+theorem deEventsAt_text_succ (d : Nat) (raw : Bytes) (t : List QEv) (h : hasCdataEnd raw = false) :
+    deEventsAt (d + 1) (.text raw :: t) = .text raw :: deEventsAt (d + 1) t := by simp [deEventsAt, h]
 
 theorem deEventsAt_cdata_succ (d : Nat) (c : Bytes) (t : List QEv) :
     deEventsAt (d + 1) (.cdata c :: t) = .cdata c :: deEventsAt (d + 1) t := by simp [deEventsAt]
@@ -29,11 +37,52 @@ theorem deEventsAt_comment (d : Nat) (t : List QEv) : deEventsAt d (.comment :: 
 
 theorem deEventsAt_pi (d : Nat) (t : List QEv) : deEventsAt d (.pi :: t) = deEventsAt d t := by simp [deEventsAt]
 
+/-- **no text event the deserialiser is handed holds `]]>`** — for every token sequence and every depth, whether the
+text is read as the content of a scalar or skipped between elements -/
+theorem deEventsAt_text_clean : ∀ (q : List QEv) (d : Nat) (raw : Bytes),
+    Ev.text raw ∈ deEventsAt d q → containsSub [93, 93, 62] raw = false
+  | [], _, _, h => by simp [deEventsAt] at h
+  | .start n r :: t, d, raw, h => by
+    simp only [deEventsAt, List.mem_cons, reduceCtorEq, false_or] at h
+    exact deEventsAt_text_clean t (d + 1) raw h
+  | .stop n :: t, d, raw, h => by
+    simp only [deEventsAt, List.mem_cons, reduceCtorEq, false_or] at h
+    exact deEventsAt_text_clean t (d - 1) raw h
+  | .empty n r :: t, d, raw, h => by
+    simp only [deEventsAt, List.mem_cons, reduceCtorEq, false_or] at h
+    exact deEventsAt_text_clean t d raw h
+  | .text x :: t, d, raw, h => by
+    simp only [deEventsAt] at h
+    split at h
+    · simp at h
+    · split at h
+      · simp at h
+      · rename_i hce
+        simp only [List.mem_cons, Ev.text.injEq] at h
+        rcases h with h | h
+        · subst h
+          rw [← hasCdataEnd_eq]
+          simpa using hce
+        · exact deEventsAt_text_clean t d raw h
+  | .cdata c :: t, d, raw, h => by
+    simp only [deEventsAt] at h
+    split at h
+    · simp at h
+    · simp only [List.mem_cons, reduceCtorEq, false_or] at h
+      exact deEventsAt_text_clean t d raw h
+  | .err :: t, d, raw, h => by simp [deEventsAt] at h
+  | .comment :: t, d, raw, h => by simp only [deEventsAt] at h; exact deEventsAt_text_clean t d raw h
+  | .decl :: t, d, raw, h => by simp only [deEventsAt] at h; exact deEventsAt_text_clean t d raw h
+  | .pi :: t, d, raw, h => by simp only [deEventsAt] at h; exact deEventsAt_text_clean t d raw h
+  | .doctype :: t, d, raw, h => by simp only [deEventsAt] at h; exact deEventsAt_text_clean t d raw h
+
 /-- the meaning of a run is valid UTF-8 -/
 theorem charsMeaning_valid : ∀ (run : List QEv) (m : Bytes), charsMeaning run = some m → utf8Valid m = true
   | [], m, h => by simp [charsMeaning] at h; subst h; exact utf8Valid_nil
   | .text raw :: r, m, h => by
     simp only [charsMeaning] at h
+    split at h
+    · cases h
     split at h
     · rename_i hv
       cases hu : unescape (normEol raw) with
@@ -78,6 +127,9 @@ theorem textLoop_joined (name : Bytes) (rest : List QEv) (d : Nat) : ∀ (run : 
   | .text raw :: r, s, m, hs, hm => by
     simp only [charsMeaning] at hm
     split at hm
+    · cases hm
+    rename_i hce
+    split at hm
     · rename_i hv
       cases hu : unescape (normEol raw) with
       | none => simp [hu] at hm
@@ -90,7 +142,7 @@ theorem textLoop_joined (name : Bytes) (rest : List QEv) (d : Nat) : ∀ (run : 
           have hvn := utf8Valid_normEol hv
           have ih := textLoop_joined name rest d r (s ++ a) b
             (utf8Valid_append hs (utf8Valid_unescape hvn hu)) hr
-          simp only [List.cons_append, deEventsAt_text_succ, textLoop, Option.isNone_none, Option.isNone_some, Bool.and_false,
+          simp only [List.cons_append, deEventsAt_text_succ _ raw _ (hasCdataEnd_of_not hce), textLoop, Option.isNone_none, Option.isNone_some, Bool.and_false,
             Bool.false_eq_true, if_false, joinedText, Option.getD_some, normText_eq_normEol hv, decodeStr_ok hvn hu, ih,
             List.append_assoc]
     · cases hm
@@ -127,6 +179,9 @@ theorem textLoop_single (name : Bytes) (rest : List QEv) (d : Nat) (x ax : Bytes
   | .text raw :: r, m, hm => by
     simp only [charsMeaning] at hm
     split at hm
+    · cases hm
+    rename_i hce
+    split at hm
     · rename_i hv
       cases hu : unescape (normEol raw) with
       | none => simp [hu] at hm
@@ -141,7 +196,7 @@ theorem textLoop_single (name : Bytes) (rest : List QEv) (d : Nat) (x ax : Bytes
           have ha := utf8Valid_unescape hvn hu
           have hj := textLoop_joined name rest d r (ax ++ a) b (utf8Valid_append hax ha) hr
           refine ⟨escape ((ax ++ a) ++ b), ?_, ?_⟩
-          · simp only [List.cons_append, deEventsAt_text_succ, textLoop, Option.isNone_none, Option.isNone_some, Bool.false_and,
+          · simp only [List.cons_append, deEventsAt_text_succ _ raw _ (hasCdataEnd_of_not hce), textLoop, Option.isNone_none, Option.isNone_some, Bool.false_and,
               Bool.false_eq_true, if_false, joinedText, Option.getD_none, List.nil_append, decodeStr_ok hx hux,
               normText_eq_normEol hv, decodeStr_ok hvn hu, hj]
           · rw [List.append_assoc]
@@ -185,6 +240,9 @@ theorem textOf_meaning (name : Bytes) (rest : List QEv) (d : Nat) : ∀ (run : L
   | .text raw :: r, m, hm => by
     simp only [charsMeaning] at hm
     split at hm
+    · cases hm
+    rename_i hce
+    split at hm
     · rename_i hv
       cases hu : unescape (normEol raw) with
       | none => simp [hu] at hm
@@ -196,7 +254,7 @@ theorem textOf_meaning (name : Bytes) (rest : List QEv) (d : Nat) : ∀ (run : L
           subst hm
           obtain ⟨raw', h1, h2⟩ := textLoop_single name rest d (normEol raw) a (utf8Valid_normEol hv) hu r b hr
           refine ⟨raw', ?_, h2⟩
-          simp only [textOf, List.cons_append, deEventsAt_text_succ, textLoop, Option.isNone_none, Bool.and_self, if_true,
+          simp only [textOf, List.cons_append, deEventsAt_text_succ _ raw _ (hasCdataEnd_of_not hce), textLoop, Option.isNone_none, Bool.and_self, if_true,
             normText_eq_normEol hv]
           exact h1
     · cases hm
